@@ -380,3 +380,52 @@ func init() {
 	registerKind("c19.renamerace", runC19RenameRace)
 	childKinds["c19.renamerace"] = true
 }
+
+// c05.coretxn (child process): one transaction that writes the meta entity of a dataset in core.Dataset (the documented way
+// to change its public namespaces) together with new entities of that dataset. The counter update at the end of the
+// transaction stores into core.Dataset again: the call must return (no self-deadlock), and both parts must be visible.
+func runC05CoreTxn(c *Ctx, in M) (out interface{}) {
+	h := OpenHub(filepath.Join(c.Dir, "c05core"), false)
+	defer h.Destroy()
+	h.Dsm.CreateDataset("a", nil)
+	h.Store.NamespaceManager.AssertPrefixMappingForExpansion(storeNS)
+	meta, err := h.Store.GetEntity("ns0:a", []string{"core.Dataset"}, true)
+	if err != nil || meta == nil {
+		return M{"completed": false, "problem": "no meta entity"}
+	}
+	meta.Properties["ns0:publicNamespaces"] = []interface{}{storeNS}
+	n := geti(in, "new")
+	ents := []*server.Entity{}
+	for i := 0; i < n; i++ {
+		e := server.NewEntity(fmt.Sprintf("ns3:k%d", i), 0)
+		e.Properties["ns3:v"] = i
+		ents = append(ents, e)
+	}
+	txn := &server.Transaction{DatasetEntities: map[string][]*server.Entity{"core.Dataset": {meta}, "a": ents}}
+	done := make(chan error, 1)
+	go func() { done <- h.Store.ExecuteTransaction(txn) }()
+	select {
+	case err := <-done:
+		if err != nil {
+			return M{"completed": true, "accepted": false}
+		}
+	case <-time.After(10 * time.Second):
+		return M{"completed": false}
+	}
+	res, _ := h.Dsm.GetDataset("a").GetEntities("", 100)
+	cnt := 0
+	if res != nil {
+		cnt = len(res.Entities)
+	}
+	return M{"completed": true, "accepted": true, "listed": cnt}
+}
+
+func init() {
+	register("c05core", func(c *Ctx) {
+		for _, n := range []int{0, 1, 3} {
+			c.DoChild("c05.coretxn", M{"new": n}, 40*time.Second)
+		}
+	})
+	registerKind("c05.coretxn", runC05CoreTxn)
+	childKinds["c05.coretxn"] = true
+}
